@@ -101,7 +101,7 @@ func (c *FuncCtx) execIterator(st *State, call *ast.CallExpr, sel *ast.SelectorE
 			limitf("%s: break/return-with-value inside an iterator closure", c.eng.posStr(call.Pos()))
 		}
 	}
-	return outs
+	return c.mergeNext(outs)
 }
 
 func (c *FuncCtx) execRangeMapImpl(st *State, x *ast.RangeStmt, coll *Val, li *loopInfo, inv []*Clause) []outcome {
